@@ -540,6 +540,22 @@ def refuse_monitor_c05(t):
     return v
 
 
+def refuse_monitor_c15(t):
+    """C15, last clause, on a refuse trace: hit+miss+load moves by one exactly for the calls that complete (M3F agrees with the code that a
+    call whose write-back is refused IS counted and raises - C15_refused_counted_not_completed - part of finding F57)"""
+    v = []
+    for rec in t['recs']:
+        b, a = rec['before'], rec['after']
+        if rec['op'][0] != 'call' or 'error' in a or 'error' in b: continue
+        d = sum(a['stats']) - sum(b['stats'])
+        done = isinstance(rec['out'], dict) and 'ret' in rec['out']
+        if d != (1 if done else 0):
+            v.append(dict(prop='C15', i=rec['i'], sig=dict(kind='counted-but-raised-after-refused-write-back' if (d == 1 and not done) else 'miscounted-on-a-refusing-archive', algo=t['cfg']['algo']),
+                          msg='%r (outcome %r): the counters moved by %d (%r -> %r)' % (rec['op'], rec['out'], d, b['stats'], a['stats']), cfg=t['cfg'], ops=t['ops']))
+            break
+    return v
+
+
 def work(a):
     tier, idx = a
     o = run_case(gen(tier, idx))
@@ -580,6 +596,7 @@ def explore(prop, tier, offset=0):
             tags['refused-eviction'] += sum(1 for x in t['recs'] if isinstance(x['out'], dict) and x['out'].get('exc') and x['op'][0] == 'call')
             if prop == 'C07': viols += [dict(x, recursive=True) for x in refuse_monitor(t)]
             if prop == 'C05': viols += [dict(x, recursive=True) for x in refuse_monitor_c05(t)]
+            if prop == 'C15': viols += [dict(x, recursive=True) for x in refuse_monitor_c15(t)]
     for d in divs: d['suite'] = 'multi'
     viols += [dict(v, recursive=True) for v in mv]
     rt = [t for t in trs if t.get('recursive')]; tt = [t for t in trs if t.get('twin')]
@@ -597,7 +614,7 @@ def replay(prop, obj):
             if t['err']: raise NoVerdict(t['err'])
             import check_wrapper as cw
             d = cw.compare_trace(t, rw._model_outs([t])[0], [prop])[prop]
-            return dict(violations=[dict(prop=prop, sig=v['sig'], msg=v['msg'], i=v.get('i', 0)) for v in (refuse_monitor(t) if prop == 'C07' else refuse_monitor_c05(t) if prop == 'C05' else [])], divergence=d)
+            return dict(violations=[dict(prop=prop, sig=v['sig'], msg=v['msg'], i=v.get('i', 0)) for v in (refuse_monitor(t) if prop == 'C07' else refuse_monitor_c05(t) if prop == 'C05' else refuse_monitor_c15(t) if prop == 'C15' else [])], divergence=d)
         t = sw.run_recursive_trace(obj['cfg'], obj['cfg']['_tops']) if '_tops' in obj['cfg'] else sw.run_twin_trace(obj['cfg'], obj['cfg']['_calls'])
         if t['err']: raise NoVerdict(t['err'])
         divs, mv, _, _ = rw._analyse(prop, [t])
